@@ -46,7 +46,10 @@ def check_history(sc, r):
     pending = {}       # target sid -> {(eid, attr, src_full): (value, q)}
     delivered = {}     # value -> count
     open_agent = {}    # agent -> time of its open step
-    next_due = {a: 0 for a in agents}
+    _typ = {s_["sid"]: s_["type"] for s_ in sc["sims"]}
+    # (time-based agents step at 0 and then whenever they say; agents of another type are covered
+    # by check_triggered_agents)
+    next_due = {a: 0 for a in agents if _typ[a] == "time-based"}
     cur_time = {}
     n_set = 0
     refused_values = set()
@@ -103,7 +106,8 @@ def check_history(sc, r):
                 open_agent.pop(sid, None)
                 open_agent_tau.pop(sid, None)
                 ret = h[3]
-                next_due[sid] = ret if isinstance(ret, int) else None
+                if _typ[sid] == "time-based":
+                    next_due[sid] = ret if isinstance(ret, int) else None
             else:
                 plant_open.pop(sid, None)
                 plant_next[sid] = h[3] if isinstance(h[3], int) else None
@@ -139,6 +143,47 @@ def check_history(sc, r):
     return viols, n_set
 
 
+def check_triggered_agents(sc, r):
+    """(b) for agents that are not time-based (their steps are demanded by triggers from other
+    simulators): the plant does not begin a step later than t before the agent's step at t has
+    finished - whether that step is open, already demanded, or only demanded later."""
+    from ..oracles import core as ocore
+    from ..refmodel import RM
+    typ = {s["sid"]: s["type"] for s in sc["sims"]}
+    pairs = [(sc["sims"][c["src"]]["sid"], sc["sims"][c["dst"]]["sid"]) for c in sc["conns"] if c.get("async")]
+    pairs = [(p, a) for p, a in pairs if typ[a] != "time-based" and p != a]
+    if not pairs:
+        return []
+    rm = RM(sc)
+    if any(v is not None for v in rm.verdicts):
+        return []
+    A = ocore.analyse(r.hist, rm, r.outcome, sc["config"])
+    viols = []
+    for plant, agent in pairs:
+        if rm.path_of[plant] != rm.path_of[agent] and (len(rm.path_of[plant]) > 1 or len(rm.path_of[agent]) > 1):
+            continue        # (main-time comparison only where both see the same time tiers)
+        done_at = {}
+        for st in A.steps[agent]:
+            if st.tau is not None:
+                done_at[st.tau] = st.q_end_step if st.q_end_step is not None else (1 << 60)
+        for ps in A.steps[plant]:
+            if ps.tau is None or ps.q_begin is None:
+                continue
+            t = ps.tau[0]
+            for tau, qd in A.dem_q[agent].items():
+                if tau[0] >= t:
+                    continue
+                fin = done_at.get(tau, 1 << 60)
+                if fin > ps.q_begin:
+                    how = "demanded_later" if qd > ps.q_begin else ("open_or_pending")
+                    viols.append({"kind": "plant_overtakes_triggered_agent_step", "features": {"how": how},
+                                  "detail": {"plant": plant, "plant_tau": ps.tau, "agent": agent, "agent_tau": tau,
+                                             "demand_known_at": qd, "plant_began_at": ps.q_begin,
+                                             "agent_finished_at": None if fin == 1 << 60 else fin}})
+                    return viols
+    return viols
+
+
 def run_case(case, prop) -> Dict[str, Any]:
     sc = case["scenario"]
     out = {"runs": 0, "violations": [], "stats": {}, "fps": set(), "ntfps": set(),
@@ -170,6 +215,7 @@ def run_case(case, prop) -> Dict[str, Any]:
         out["fps"].add(fp)
         oc = r.outcome
         viols, n_set = check_history(sc, r)
+        viols.extend(check_triggered_agents(sc, r))
         if n_set:
             st["runs_with_set_data"] = st.get("runs_with_set_data", 0) + 1
             st["set_data_calls"] = st.get("set_data_calls", 0) + n_set
